@@ -56,6 +56,8 @@ struct TeakraBusRobP {
 template struct TeakraBusRobP<&Teakra::Processor::impl>;
 
 namespace {
+using Teakra::RegisterState;
+#include "regflat.inc"
 struct BusOob {};
 
 uint64_t SplitMix(uint64_t x) {
@@ -380,6 +382,60 @@ struct BusUnit {
 
     std::string E() { return " | " + ev.Take(); }
 
+    // ---- the processor core (system-level ops): registers in the flat protocol order of tools/gen_flat.py
+    RegisterState& Regs() { return t->GetRegisterState(); }
+    // the same draw procedure as Drive/Interp.lean genRegs (and harness/u_interp.cpp)
+    void GenRegs(uint64_t seed) {
+        RegisterState& r = Regs();
+        uint64_t s = seed;
+        auto next = [&s]() { s += 1; return SplitMix(s * 0x2545F4914F6CDD1Dull + 0x1234567); };
+        for (int i = 0; i < kFlatCount; ++i) {
+            const FlatField& f = kFlat[i];
+            uint64_t vv = next(), val = 0;
+            std::string k = f.kind;
+            if (k == "z") val = 0;
+            else if (k[0] == 'c') val = std::stoull(k.substr(1));
+            else if (k == "acc") {
+                uint64_t x = next();
+                unsigned sel = vv & 7;
+                if (sel == 0) val = 0;
+                else if (sel < 4) val = (uint64_t)(int64_t)(int32_t)(uint32_t)x;
+                else val = (x & 0x8000000000ull) ? (x | 0xFFFFFF0000000000ull) : (x & 0xFFFFFFFFFFull);
+            } else {
+                uint64_t mask = f.width >= 64 ? ~0ull : ((1ull << f.width) - 1);
+                unsigned sel = vv & 7;
+                uint64_t x = (vv >> 8) & mask;
+                if (sel == 0) val = 0;
+                else if (sel == 1) val = mask;
+                else if (sel == 2) val = 1ull << (f.width - 1);
+                else if (sel == 3) val = (1ull << (f.width - 1)) - 1;
+                else val = x;
+                if (k == "pc" && val > 0x3FFF0) val -= 0x10;
+            }
+            f.set(r, val);
+        }
+    }
+    std::string DumpRegs() {
+        Out o;
+        for (int i = 0; i < kFlatCount; ++i) o << kFlat[i].get(Regs());
+        return o.s;
+    }
+    uint64_t RegDigest() {
+        uint64_t h = kFnvInit;
+        for (int i = 0; i < kFlatCount; ++i) h = FnvLE(h, kFlat[i].get(Regs()), 8);
+        return h;
+    }
+    std::string Latches() {   // non-destructive
+        auto& in = TeakraBusInterpreter(*v.processor);
+        Out o;
+        for (unsigned i = 0; i < 3; ++i) o << (uint64_t)A::IntPending(in)[i].load();
+        bool vp = A::VintPending(in).load();
+        o << (uint64_t)vp;
+        if (vp) o << (uint64_t)A::VintContext(in).load() << (uint64_t)A::VintAddress(in).load();
+        else o << (uint64_t)0 << (uint64_t)0;
+        return o.s;
+    }
+
     std::string Do(const Args& x) {
         ev.s.clear();
         if (x.empty()) throw std::string("bad-op");
@@ -411,6 +467,10 @@ struct BusUnit {
             if (op == "tstate") return TState();
             if (op == "digest") return Hex(Digest());
             if (op == "memdigest") return Hex(MemDigest());
+            if (op == "dump") return DumpRegs();
+            if (op == "regdigest") return Hex(RegDigest());
+            if (op == "state") return Hex(RegDigest()) + " " + Hex(Digest()) + " " + Hex(MemDigest()) + " | " + Latches();
+            if (op == "latches") return Latches();
             if (op == "latch") {
                 auto& in = TeakraBusInterpreter(*v.processor);
                 Out o;
@@ -447,12 +507,25 @@ struct BusUnit {
             if (op == "ausz") { unsigned i = Index(x[1]); return Hex(t->AHBMGetUnitSize((u16)i)) + " | -"; }
             if (op == "adir") { unsigned i = Index(x[1]); return Hex(t->AHBMGetDirection((u16)i)) + " | -"; }
             if (op == "adma") { unsigned i = Index(x[1]); return Hex(t->AHBMGetDmaChannel((u16)i)) + " | -"; }
+            if (op == "gen") { GenRegs(a); return "ok"; }
+            if (op == "run" || op == "steps") {   // Teakra::Run(a) resp. a times Teakra::Run(1)
+                if (a > 0x4000000) throw std::string("bad-op");
+                g_acc = nullptr;   // only the bounds check of the observer stays on
+                if (op == "run") t->Run((unsigned)a);
+                else for (uint64_t k = 0; k < a; ++k) t->Run(1);
+                return "ok" + E();
+            }
             if (op == "ticks") {
                 if (a > 0x20000) throw std::string("bad-op");
                 for (uint64_t k = 0; k < a; ++k) v.core_timing->Tick();
                 return "ok" + E();
             }
             if (op == "skip") { if (a > 0x10000) throw std::string("bad-op"); u64 k = v.core_timing->Skip(a); return Hex(k) + E(); }
+        }
+        if (n == 3 && op == "poke") {   // poke <field name> <value>
+            for (int i = 0; i < kFlatCount; ++i)
+                if (x[1] == kFlat[i].name) { kFlat[i].set(Regs(), H(x[2])); return "ok"; }
+            throw std::string("bad-op");
         }
         if (n == 3) {
             uint64_t a = H(x[1]), b = H(x[2]);
